@@ -118,3 +118,85 @@ def run_acccopy(chk, prog, rule, hooks, unit_filter, exempt_units=()):
                                   "object's life (line %d), is not taken over from the original, so the copy does not behave like it" % (
                                       h.name, t.replace("struct.", ""), fld, st.bb.fn.name, st.line))
     return n
+
+
+def mutable_scalar_fields(prog, sname, unit_filter, skip_fns):
+    """{field: store} scalar fields of struct sname that code outside its constructors / copy / destroy functions
+    writes: state the object acquires while it is used"""
+    out = {}
+    for f in prog.functions():
+        if f.decl or not unit_filter(f.unit.src) or f in skip_fns:
+            continue
+        f.build()
+        # constructors: functions that allocate the struct themselves
+        if any(norm_callee(c.callee) in ALLOC_FNS and (_alloc_struct(f, c)[0] == sname) for c in f.calls()):
+            continue
+        for i in f.insts():
+            if i.op != "store" or (getattr(i.ops[0], "ty", "") or i.x.get("vt", "")).endswith("*"):
+                continue
+            fl = _field_of_ptr(i.ops[1])
+            if fl and fl[0] == sname and "." not in fl[1]:
+                q = strip_casts(i.ops[1])
+                # top-level scalar members only (embedded containers have their own copy routines)
+                if len(q.fields() or []) == 1:
+                    out.setdefault(fl[1], i)
+    return out
+
+
+def run_statecopy(chk, prog, rule, hooks, unit_filter):
+    """H7-state: a copy hook that does not duplicate its object wholesale (memcpy of the whole struct) takes over every
+    scalar member that the library writes while the object is in use -- read from the source somewhere in the hook."""
+    n = 0
+    hookset = set(hooks)
+    for h in hooks:
+        h.build()
+        if not h.params:
+            continue
+        src = h.params[0]
+        allocs = [c for c in h.calls() if norm_callee(c.callee) in ALLOC_FNS and norm_callee(c.callee) != "realloc"]
+        for c in allocs:
+            t, val = _alloc_struct(h, c)
+            if not t:
+                continue
+            # is it the object handed back?
+            whole = False
+            for m in h.calls():
+                if norm_callee(m.callee) in ("memcpy", "memmove") and len(m.ops) >= 3:
+                    db = strip_casts(resolve_ptr(prog, m.ops[0], h.unit)[0])
+                    sb = strip_casts(resolve_ptr(prog, m.ops[1], h.unit)[0])
+                    if (db is c or db is val) and resolve_ptr(prog, m.ops[0], h.unit)[1] == 0 and (sb is src or strip_casts(sb) is src):
+                        whole = True
+            srcty = None
+            for u in h.uses.get(src, []):
+                if u.op == "bitcast":
+                    srcty = struct_of_type(u.ty) or srcty
+            if srcty != t:
+                continue
+            n += 1
+            chk.analysed(h)
+            inst = "%s:%s" % (h.name, t.replace("struct.", ""))
+            if whole:
+                chk.ok(rule, inst, c, "the object is duplicated wholesale before its members are replaced")
+                continue
+            state = mutable_scalar_fields(prog, t, unit_filter, hookset)
+            missing = []
+            for fld, st in sorted(state.items()):
+                got = False
+                for i in h.insts():
+                    if i.op == "load":
+                        fl = _field_of_ptr(i.ops[0])
+                        if fl and fl[0] == t and fl[1] == fld:
+                            b = strip_casts(resolve_ptr(prog, i.ops[0], h.unit)[0])
+                            if b is src or strip_casts(b) is src:
+                                got = True
+                if not got:
+                    missing.append((fld, st))
+            if not missing:
+                chk.ok(rule, inst, c, "built member by member; every scalar the library writes during use (%s) is read from the original"
+                       % ", ".join(sorted(state)))
+            else:
+                fld, st = missing[0]
+                chk.violation(rule, inst, c, "the copy is built member by member and '%s' is not taken over: %s writes it while the "
+                              "object is in use (line %d), so a copy taken at that moment starts from a different state than "
+                              "the original" % (fld, st.bb.fn.name, st.line))
+    return n
